@@ -341,4 +341,89 @@ theorem modeOf_spec (l : List Nat) (hne : l ≠ []) :
       · have := h3 he; omega
       · exact (h4 q hq').2 he
 
+/-! ### the guard of the label-3 rule; majority -/
+
+/-- Without the guard (`ioutside.size > 0 and ioutside[-1] == nc - 1`) nothing is labelled 3. -/
+theorem outsideBlock_of_guard_false (nc : Nat) (low : Nat → Bool)
+    (h : topGuard nc ((List.range nc).filter low) = false) : outsideBlock nc low = [] := by
+  unfold topGuard at h
+  cases hl : ((List.range nc).filter low).getLast? with
+  | none => simp only [outsideBlock, hl]
+  | some l =>
+    rw [hl] at h
+    simp only [beq_eq_false_iff_ne, ne_eq] at h
+    simp only [outsideBlock, hl, h, if_false]
+
+/-- The guard holds exactly when the last channel of the probe is itself below the threshold. -/
+theorem topGuard_iff (nc : Nat) (low : Nat → Bool) :
+    topGuard nc ((List.range nc).filter low) = true ↔ 0 < nc ∧ low (nc - 1) = true := by
+  have hmemf : ∀ u, u ∈ (List.range nc).filter low ↔ u < nc ∧ low u = true := by
+    intro u; simp [List.mem_filter, List.mem_range]
+  have hsorted := filter_range_sorted nc low
+  unfold topGuard
+  cases hl : ((List.range nc).filter low).getLast? with
+  | none =>
+    have hnil := List.getLast?_eq_none_iff.mp hl
+    simp only [Bool.false_eq_true, false_iff, not_and]
+    intro hnc htop
+    have := (hmemf (nc - 1)).mpr ⟨by omega, htop⟩
+    rw [hnil] at this
+    simp at this
+  | some l =>
+    have hmem : l ∈ (List.range nc).filter low := List.mem_of_getLast? hl
+    have hl' := (hmemf l).mp hmem
+    simp only [beq_iff_eq]
+    constructor
+    · intro e
+      subst e
+      exact ⟨by omega, hl'.2⟩
+    · rintro ⟨hnc, htop⟩
+      -- nc - 1 is in the list and the last element is the largest
+      have hin := (hmemf (nc - 1)).mpr ⟨by omega, htop⟩
+      obtain ⟨k, hk, hke⟩ := List.mem_iff_getElem.mp hin
+      have hne : (List.range nc).filter low ≠ [] := by intro e; rw [e] at hin; simp at hin
+      have hlast : ((List.range nc).filter low)[((List.range nc).filter low).length - 1]'(by
+          have := List.length_pos_of_mem hin; omega) = l := by
+        rw [List.getLast?_eq_getElem?] at hl
+        rw [List.getElem?_eq_getElem (by have := List.length_pos_of_mem hin; omega)] at hl
+        exact Option.some.inj hl
+      have := sorted_gap _ hsorted k (((List.range nc).filter low).length - 1) (by omega)
+        (by have := List.length_pos_of_mem hin; omega)
+      rw [hlast, hke] at this
+      omega
+
+theorem count_add_count_le (l : List Nat) (a b : Nat) (h : a ≠ b) : l.count a + l.count b ≤ l.length := by
+  induction l with
+  | nil => simp
+  | cons x xs ih =>
+    simp only [List.count_cons, List.length_cons]
+    have hab : ¬ b = a := fun e => h e.symm
+    by_cases h1 : x = a
+    · subst h1
+      simp only [beq_self_eq_true, if_true, beq_iff_eq, h, if_false]
+      omega
+    · by_cases h2 : x = b
+      · subst h2
+        simp only [beq_self_eq_true, if_true, beq_iff_eq, hab, if_false]
+        omega
+      · simp only [beq_iff_eq, h1, h2, if_false]
+        omega
+
+/-- `mapM` into `Option` keeps the length. -/
+theorem mapM_option_length {α β : Type} (f : α → Option β) :
+    ∀ (l : List α) (r : List β), l.mapM f = some r → r.length = l.length
+  | [], r, h => by
+    simp at h; subst h; rfl
+  | a :: l, r, h => by
+    rw [List.mapM_cons] at h
+    cases ha : f a with
+    | none => simp [ha] at h
+    | some b =>
+      cases hl : l.mapM f with
+      | none => simp [ha, hl] at h
+      | some bs =>
+        simp [ha, hl] at h
+        subst h
+        simp [mapM_option_length f l bs hl]
+
 end IblVerif.BadChannels
